@@ -801,7 +801,7 @@ func GenSchedPlan(seed uint64, idx int, prop string) *plan.SchedPlan {
 	if prop == "C11" {
 		return genBudgetPlan(p, r, uniq)
 	}
-	if prop == "C13" && idx%53 == 11 {
+	if prop == "C13" && idx%29 == 11 {
 		return genBigDistinct(p, r, uniq)
 	}
 	if prop == "C13" && idx%61 == 17 {
